@@ -681,4 +681,7 @@ def run(ctx):
     ctx.explanation = ('C14: the plane-normal table of free_surface_basis is evaluated for all 26 zero/sign patterns (zone law, integrality, +g orientation, agreement with tools/miller); '
                        'the search guards and cutboxvector arms are checked on the syntax tree / by evaluation; FreeSurface.__init__, surface(), the stacking-fault position setters and fault() are '
                        'evaluated on model cells with recording stubs (refusals, mid-plane shifts, call order, periodicity, vacuum, which atoms move by which vector). Not decided: concrete cell geometry.')
-    ctx.run_rules([plane_table, search, free_surface, fault])
+    # fault() moves the atoms above the plane and then wraps the system (out-of-plane shifts push atoms through a non-periodic face): "atoms below stay, atoms above move by
+    # the shift" rests on System.wrap keeping absolute positions while it extends the cell, decided by the rule of the property that owns it
+    from .c05 import wrap as system_wrap
+    ctx.run_rules([plane_table, search, free_surface, fault, system_wrap])
